@@ -268,3 +268,53 @@ def discharge(F, cg, site, pr):
     if L is None:
         return None
     return facts_for(fn, pr).slice_ok(L, bounds[0], bounds[1], site.block)
+
+
+def discharge_bytes(F, cg, site, pr):
+    """`s.as_bytes()[i]` with constant i: in bounds when a guard on the same text implies len(s) >= i + 1 (the same length
+    facts that discharge `&s[i..i + 1]`; no char-boundary condition is needed for a byte)"""
+    if site.kind != "assert-bounds":
+        return None
+    fn = site.fn
+    t = fn.blocks[site.block]["term"]
+    m = t.get("msg") or {}
+    i = P.const_int(site.info.get("index")) if site.info.get("index") is not None else None
+    if i is None or "len" not in m:
+        return None
+    sf = facts_for(fn, pr)
+    d = sf._def_of(m["len"])
+    # len = PtrMetadata(bytes) / Len(*bytes)
+    op = None
+    if d and d[2] == "rv":
+        rv = d[3]
+        if "un" in rv and rv["un"] == "PtrMetadata":
+            op = rv["a"]
+        elif "len" in rv:
+            op = {"copy": {"l": rv["len"]["l"], "proj": []}}
+    for _ in range(3):
+        if op is None:
+            return None
+        dd = sf._def_of(op)
+        if dd is None:
+            return None
+        if dd[2] == "call" and dd[3]["callee"].get("name") == "as_bytes" and I.callee_path(dd[3]).startswith("core::str"):
+            L = root_local(fn, pr, dd[3]["args"][0])
+            if L is None:
+                return None
+            need = i + 1
+            len_edges = [e for (e, n) in sf.minlen.get(L, []) if n >= need]
+            if len_edges and I.guarded_by(fn, site.block, len_edges) and sf._stable(L, len_edges, site.block):
+                return "R-bytes-guard"
+            pe = [e for (e, k) in sf.prefix.get(L, []) if k >= need]
+            if pe and I.guarded_by(fn, site.block, pe) and sf._stable(L, pe, site.block):
+                return "R-bytes-guard(prefix)"
+            return None
+        if dd[2] == "rv" and ("use" in dd[3] or "ref" in dd[3]):
+            nxt = dd[3].get("use") or {"copy": dd[3]["ref"]}
+            pl = nxt.get("copy") or nxt.get("move")
+            if pl is None:
+                return None
+            op = {"copy": {"l": pl["l"], "proj": []}}
+            continue
+        return None
+    return None
